@@ -43,7 +43,9 @@ __all__ = ['IO']
 line_pattern = re.compile(br'(.*?)\r?\n')
 reply_line_pattern = re.compile(br'((\d\d\d)(?:([ \t-])(.*?))?)\r?\n')
 command_pattern = re.compile(br'^([a-zA-Z]+)\s*$')
-command_arg_pattern = re.compile(br'^([a-zA-Z]+)\s+(.+?)\s*$')
+# (The argument ends at the last non-blank: matched greedily, as a lazy match
+# is retried once per blank inside the argument.)
+command_arg_pattern = re.compile(br'^([a-zA-Z]+)\s+(.*\S)\s*$')
 
 log = logging.getSocketLogger(__name__)
 
